@@ -67,6 +67,8 @@ type Exec struct {
 	constSliceArr map[string]*Term
 	usedExterns   map[string]bool
 	boxes         map[int]*Value // box identity term id -> boxed (non-pointer) value
+	allocBases    map[int]bool   // term ids of allocation frontiers
+	globalFacts   []*Term        // definitional facts about fresh constants (hold on every path)
 }
 
 type writeSet struct {
